@@ -211,7 +211,7 @@ Gen<std::string> exp_gen(int lo, int hi) {
 Gen<Case> finish(Gen<std::string> text, std::string cls, int malformed = 0) {
     return gen::map(gen::tuple(std::move(text),
                                pbt::pick<std::string>({"", "", ",", "]", "}", " ", "", ",", "]", " ", "\xB0", "\xB7", "\xB9", "\xAE", "\xE5", "\xC5", "\xAB", "\xAD", "\xB0,"}),
-                               pbt::pick<int>({1, 1, 2, 4}),
+                               pbt::pick<int>({1, 1, 2, 4, 3}),
                                pbt::pick<std::string>({"", "", "[", "[ 1,", "{\"a\":"})),
                     [cls, malformed](std::tuple<std::string, std::string, int, std::string> t) {
                         Case c;
@@ -535,7 +535,7 @@ struct H {
         int            ev = ((int(f.sel()) << 8) | f.sel()) % 801 - 400;
         static const char *sg[] = {"", "-", "+", ""};
         static const char *tm[] = {"", ",", "]", " "};
-        static const int   w[]  = {1, 2, 4, 1};
+        static const int   w[]  = {1, 2, 4, 3};
         std::string        ip, fp;
         bool               in_frac = false;
         for (uint8_t x : f.rest()) {
@@ -614,6 +614,7 @@ struct H {
         switch (c.width) {
             case 1: run_width<char>(c, ctx); break;
             case 2: run_width<char16_t>(c, ctx); break;
+            case 3: run_width<wchar_t>(c, ctx); break;
             default: run_width<char32_t>(c, ctx); break;
         }
     }
